@@ -839,3 +839,28 @@ Proof.
   - destruct o; cbn [op_valid no_raw] in *; try exact I. contradiction.
   - destruct (step s o) as [[s1 x]|]; [apply IH; exact Hr|exact I].
 Qed.
+
+(* run_upto (used by the correspondence check, which also exercises the exhaustion boundary) agrees with run *)
+Lemma run_upto_ok : forall ops s s' outs, run s ops = Ok (s', outs) <-> run_upto s ops = (outs, None, s').
+Proof.
+  induction ops as [|o r IH]; intros s s' outs; cbn [run run_upto].
+  - split; intros H; injection H as <- <-; reflexivity.
+  - destruct (step s o) as [[s1 x]|e]; [|split; discriminate].
+    specialize (IH s1). destruct (run s1 r) as [[s2 xs]|e2]; destruct (run_upto s1 r) as [[ys e] s3].
+    + split.
+      * intros H. injection H as <- <-. pose proof (proj1 (IH s2 xs) eq_refl) as E. injection E as -> -> ->. reflexivity.
+      * intros H. injection H as <- -> <-. pose proof (proj2 (IH s3 ys) eq_refl) as E. injection E as -> ->. reflexivity.
+    + split; [discriminate|].
+      intros H. injection H as <- -> <-. pose proof (proj2 (IH s3 ys) eq_refl) as E. discriminate.
+Qed.
+
+(* the exhaustion guard: a fresh term is either refused or gets an id below 2^31, whatever next_id is *)
+Lemma d_encode_guard : forall d x,
+  d_get d x = None ->
+  (d_encode d x = Err Exhausted <-> QBIT <= nxt d) /\
+  (forall d' i, d_encode d x = Ok (d', i) -> i = nxt d /\ i < QBIT /\ nxt d' <= QBIT).
+Proof.
+  intros d x Hn. unfold d_encode. rewrite Hn. destruct (N.ltb_spec (nxt d) QBIT) as [Hlt|Hge].
+  - split; [split; [discriminate|lia]|]. intros d' i H. unfold bm_alloc in H. injection H as <- <-. cbn. splits; lia.
+  - split; [split; [lia|reflexivity]|]. intros d' i H. discriminate.
+Qed.
